@@ -762,7 +762,11 @@ class WorkflowStateMachine(object):
         # barrier task(s). A barrier task is unreachable if the workflow is completed but then one
         # or more criteria for the task is satisified. In this case, log the task and fail the
         # workflow to notify that the execution is incomplete but unable to proceed.
-        if workflow_state.status in statuses.COMPLETED_STATUSES:
+        # A canceled workflow is exempted: the cancelation is what kept the task from running.
+        if (
+            workflow_state.status in statuses.COMPLETED_STATUSES
+            and workflow_state.status != statuses.CANCELED
+        ):
             unreachable_barriers = workflow_state.get_unreachable_barriers()
 
             # If there are unreachable barrier tasks, then change workflow status to failed
